@@ -364,7 +364,23 @@ def compare(c: dict, obs, stats=None, expect=None):
     return None
 
 
+_OOT_SEEN: dict = {}
+
+
 def check_case(ck: Check, c: dict, bad: list, nontrivial=True, stats=None):
+    if c.get("oot"):
+        # DevOutTab: the result degree has no table, so no array can hold the defined bracket; what the kernel does
+        # there is recorded as an observation and never judged (the requirement is silent outside the tables)
+        try:
+            o = run_case(c)
+            beh = f"returns an array of length {o['len']} with {len(o['c'])} non-zero entries"
+        except MachineryError:
+            raise
+        except Exception as ex:
+            beh = f"raises {type(ex).__name__}"
+        _OOT_SEEN[beh] = _OOT_SEEN.get(beh, 0) + 1
+        ck.count(("oot", json.dumps(c.get("p")), json.dumps(c.get("q"))), False)
+        return True
     try:
         obs = run_case(c)
         err = None
@@ -479,8 +495,13 @@ def check_index(ck: Check, bad: list, r):
     total = 0
     t0 = time.time()
     for D, kreq, keff in plans:
-        psiF, clmoF = B._init_fourier_tables(D, kreq)
-        enc = B._create_encode_dict_fourier(clmoF)
+        try:
+            psiF, clmoF = B._init_fourier_tables(D, kreq)
+            enc = B._create_encode_dict_fourier(clmoF)
+        except Exception as ex:
+            bad.append(("_init_fourier_tables|raises", f"_init_fourier_tables({D}, {kreq}) / _create_encode_dict_fourier raised {type(ex).__name__}: "
+                        f"{str(ex)[:160]} (documented: k_max <= 63, larger values are truncated)", {"fn": "table-sweep", "D": D, "kreq": kreq, "keff": keff, "d": 0}))
+            continue
         for d in range(D + 1):
             T, W = table_array(d, keff)
             total += T.shape[0]
@@ -492,8 +513,11 @@ def check_index(ck: Check, bad: list, r):
         del psiF, clmoF, enc
     ck.part("index", sweep_entries=total, sweep_plans=[list(p) for p in plans], sweep_s=round(time.time() - t0, 1))
     # observation (DevKTrunc): the degree limit is not enforced
-    psi64, clmo64 = B._init_fourier_tables(64, 0)
-    ns = int(np.sum(np.asarray(clmo64[64]) == np.uint64(SENT)))
+    try:
+        psi64, clmo64 = B._init_fourier_tables(64, 0)
+        ns = int(np.sum(np.asarray(clmo64[64]) == np.uint64(SENT)))
+    except Exception as ex:
+        ns = f"(raises {type(ex).__name__})"
     ck.notes.append(f"_init_fourier_tables(64, 0): clmoF[64] contains {ns} sentinel words (n_i = 64 does not fit 6 bits); k_max > 63 is "
                     "truncated silently but degree > 63 is not rejected (outside the admissible domain, not decided)")
 
@@ -577,43 +601,58 @@ def nf_cases(h: dict):
 # --------------------------------------------------------------------------
 
 def selftest(ck: Check, alg_insts: list, nf_insts: list, pack_probes: list):
+    """Each comparator must reject a corrupted expectation.  The corruption is applied to a case that agrees
+    uncorrupted (on a tree where the case itself disagrees a violation is reported anyway and the self-test of that
+    comparator is skipped: a corrupted expectation could coincide with the wrong result)."""
     probe = Check.__new__(Check)          # throw-away counter, nothing is recorded in the evidence
     probe.cov = {"evaluations": 0}
     probe._distinct = set()
     done = {}
 
-    def must_fail(name, c):
+    def must_fail(name, c, corrupt):
+        c = json.loads(json.dumps(c))
+        c.pop("asis", None)
         bad = Bag()
+        check_case(probe, c, bad)
+        if bad:
+            done[name] = "skipped: the uncorrupted case disagrees (" + bad[0][0] + ")"
+            return
+        corrupt(c)
         check_case(probe, c, bad)
         if not bad:
             raise MachineryError(f"binding self-test '{name}': a corrupted expectation was accepted")
         done[name] = bad[0][0]
 
+    def bump(path):
+        def f(c):
+            o = c["expect"]
+            for k in path[:-1]:
+                o = o[k]
+            o[path[-1]] += 1
+        return f
+
     x = next(x for x in alg_insts if x["shape"] in ("hom", "mono") and x["mul"]["len"] > 0 and x["mul"]["c"] and x["poisson"]["c"]
              and any(g != [0, 0] for g in x["grad"][1]))
     cs = {c["fn"] + str(c.get("tag", "")): c for c in alg_cases(x, False)}
-    c = json.loads(json.dumps(cs["_fpoly_mul"]))
-    c["expect"]["c"][0][1] += 1
-    must_fail("mul-coefficient+1", c)
-    c = json.loads(json.dumps(cs["_fpoly_mul"]))
-    c["expect"]["c"][0][0] += 1
-    must_fail("mul-slot+1", c)
-    c = json.loads(json.dumps(cs["_fpoly_poisson"]))
-    c["expect"]["c"][0][1], c["expect"]["c"][0][2] = -c["expect"]["c"][0][1] or 1, -c["expect"]["c"][0][2]
-    must_fail("poisson-sign", c)
-    c = json.loads(json.dumps(cs["_fpoly_block_gradient1"]))
-    j = next(j for j, g in enumerate(c["expect"]["grad"]) if g != [0, 0])
-    c["expect"]["grad"][j][0] += 1          # one unit of 4^-D at a quarter-turn point: must exceed the tolerance
-    must_fail("gradient+1unit-at-quarter-turn", c)
-    c = json.loads(json.dumps(cs["_fourier_hessian0"]))
-    c["expect"]["hess"][3][3][0] += 1
-    must_fail("hessian+1unit", c)
+    must_fail("mul-coefficient+1", cs["_fpoly_mul"], bump(["c", 0, 1]))
+    must_fail("mul-slot+1", cs["_fpoly_mul"], bump(["c", 0, 0]))
+    must_fail("mul-length+1", cs["_fpoly_mul"], bump(["len"]))
+    must_fail("poisson-coefficient+1", cs["_fpoly_poisson"], bump(["c", 0, 2]))
+    must_fail("diff_angle-length+1", cs["_fpoly_diff_angle0"] if "_fpoly_diff_angle0" in cs else cs["_fpoly_diff_angle"], bump(["len"]))
+    j = next(j for j, g in enumerate(cs["_fpoly_block_gradient1"]["expect"]["grad"]) if g != [0, 0])
+    must_fail("gradient+1unit-at-quarter-turn", cs["_fpoly_block_gradient1"], bump(["grad", j, 0]))     # one unit of 4^-D must exceed the tolerance
+    must_fail("value+1unit-at-quarter-turn", cs["_fpoly_block_evaluate3"], bump(["val", 1]))
+    must_fail("hessian+1unit", cs["_fourier_hessian0"], bump(["hess", 3, 3, 0]))
     h = next(h for h in nf_insts if h["c"] and h["deg"] % 2 == 0)
-    c = json.loads(json.dumps(nf_cases(h)[0]))
-    c["expect"]["c"][0][1], c["expect"]["c"][0][2] = -c["expect"]["c"][0][2], c["expect"]["c"][0][1]       # prefactor times i
-    must_fail("nf2aa-prefactor-times-i", c)
+    ncs = nf_cases(h)
+    must_fail("nf2aa-coefficient+1", ncs[0], bump(["c", 0, 1]))
+    must_fail("nf2aa-slot+1", ncs[1], bump(["c", 0, 0]))
+
+    def bump_val(c):
+        c["expect"][0] += 1
+    must_fail("nf2aa+evaluate-value+1", ncs[3], bump_val)
     t, w = next((t, w) for t, w in pack_probes if w != [-1])
-    must_fail("pack-word+2^25", dict(fn="_pack_fourier_index", t=t, expect=[w[0], w[1] + 1, w[2]]))
+    must_fail("pack-word+2^25", dict(fn="_pack_fourier_index", t=t, expect=w), bump([1]))
     ck.part("selftest", corrupted_expectations_detected=done)
 
 
@@ -651,17 +690,19 @@ def main(tier=None, replay=None):
     def gen2():
         out = {}
         out["mono"] = tlc(MC, CFG / f"FourierPoly.{ck.tier}.cfg", workers=6, timeout=1500)
+        if not q:          # K = 1 tables as well: products of |k| = 1 terms leave the table there (DevTrunc)
+            out["mono1"] = tlc(MC, CFG / "FourierPoly.quick.cfg", workers=6, timeout=1500)
         out["zeroaction"] = tlc(MC, CFG / "FourierPoly.zeroaction.cfg", workers=2, timeout=600)
         return out
 
     def gen3():
         out = {}
-        out["walk"] = tlc(MC, CFG / "FourierPoly.walk.cfg", simulate="num=%d" % (60 if q else 500), seed=ck.seed, depth=100,
+        out["walk"] = tlc(MC, CFG / "FourierPoly.walk.cfg", simulate="num=%d" % (60 if q else 1500), seed=ck.seed, depth=100,
                           workers=4, timeout=1500)
-        out["walkbig"] = tlc(MC, CFG / "FourierPoly.walkbig.cfg", simulate="num=%d" % (15 if q else 250), seed=ck.seed + 1, depth=140,
+        out["walkbig"] = tlc(MC, CFG / "FourierPoly.walkbig.cfg", simulate="num=%d" % (15 if q else 600), seed=ck.seed + 1, depth=140,
                              workers=4, timeout=1500)
         out["nfmono"] = tlc(MC, CFG / f"FourierPoly.nfmono.{ck.tier}.cfg", workers=4, timeout=1500)
-        out["nfwalk"] = tlc(MC, CFG / "FourierPoly.nfwalk.cfg", simulate="num=%d" % (100 if q else 800), seed=ck.seed + 2, depth=100,
+        out["nfwalk"] = tlc(MC, CFG / "FourierPoly.nfwalk.cfg", simulate="num=%d" % (100 if q else 2000), seed=ck.seed + 2, depth=100,
                             workers=4, timeout=1500)
         return out
     ths = [_bg(g) for g in (gen, gen2, gen3)]
@@ -690,6 +731,8 @@ def main(tier=None, replay=None):
     join(2)
     ck.model("FourierPoly.mono." + ck.tier, runs["mono"])
     ck.model("FourierPoly.nfmono." + ck.tier, runs["nfmono"])
+    if "mono1" in runs:
+        ck.model("FourierPoly.mono.quick", runs["mono1"])
     rz = runs["zeroaction"]
     ck.model("FourierPoly.zeroaction", rz, expect_ok=False)
     if rz.invariant_violated != "InvDerivEverywhere":
@@ -706,8 +749,8 @@ def main(tier=None, replay=None):
         ck.cov["states"] += nst
         ck.cov["transitions"] += nst
     alg_insts, seen = [], set()
-    for nm in ("mono", "walk", "walkbig"):
-        for x in runs[nm].printed():
+    for nm in ("mono", "mono1", "walk", "walkbig"):
+        for x in (runs[nm].printed() if nm in runs else []):
             if x.get("kind") == "alg":
                 k = json.dumps([x["p"], x["q"], x["shape"], x["K"], x["D"], x["dp"], x["dq"]], sort_keys=True)
                 if k not in seen:
@@ -771,6 +814,10 @@ def main(tier=None, replay=None):
             max_err_over_tol=stats2.get("max_err_over_tol", 0.0))
 
     selftest(ck, alg_insts, nf_insts, pack_probes)
+    if _OOT_SEEN:
+        ck.notes.append("DevOutTab observation (not judged): _fpoly_poisson with deg_p + deg_q - 1 beyond the tables " +
+                        "; ".join(f"{k} [{v} calls]" for k, v in sorted(_OOT_SEEN.items())) +
+                        "; the as-found model (FourierPoly.CodePoisson) predicts a 1-element zero array")
     for x in alg_insts:
         if len(x["p"]) >= 2 and len(x["q"]) >= 2 and x["poisson"]["c"]:
             ck.sample({"p": x["p"], "q": x["q"], "K": x["K"], "poisson": x["poisson"]}, cap=3)
